@@ -20,6 +20,7 @@ import (
 	"runtime"
 	"sort"
 	"strings"
+	"sync"
 	"time"
 
 	"github.com/usnistgov/dastard/internal/vexp"
@@ -88,6 +89,9 @@ type slot struct {
 	ncases   uint32
 	lastCase uint32 // 1+clause index of the last select clause entered, 0 = none
 	crashAt  uint32
+	chans    []interface{} // PSC: the select's channels in source order (nil for PS)
+	sends    []bool
+	hasDef   bool
 }
 
 var (
@@ -136,6 +140,86 @@ func P(id uint32) { park(id, 0) }
 //
 //go:norace
 func PS(id uint32, ncases uint32) { park(id, ncases) }
+
+// PSC is PS for a select whose channels are plain variables or fields: the scheduler can ask the
+// runtime which cases are ready and only branches over those.
+//
+//go:norace
+func PSC(id uint32, chans []interface{}, sends []bool, hasDefault bool) {
+	if rtLoad32(&active) == 0 {
+		return
+	}
+	g := rtGoid()
+	if g == rtLoad64(&schedGoid) || isBanned(g) {
+		return
+	}
+	s := findSlot(g)
+	if s == nil {
+		s = claimSlot(g)
+	}
+	s.chans, s.sends, s.hasDef = chans, sends, hasDefault
+	park(id, uint32(len(chans)))
+	s.chans, s.sends = nil, nil
+}
+
+// readyCases returns the runtime case indices (sends first, then receives, each in source order: the
+// order selectgo numbers them) of the cases that are ready now, or nil if the select is not inspectable.
+//
+//go:norace
+func readyCases(s *slot) (idx []int, ok bool) {
+	if s.chans == nil {
+		return nil, false
+	}
+	// cmd/compile (walk/select.go) numbers the send cases 0,1,.. in source order and the receive cases
+	// from the end backwards: the first receive in the source is case ncas-1, the second ncas-2, ...
+	ncas := len(s.chans)
+	si, ri := 0, 0
+	for i, ch := range s.chans {
+		var rt int
+		if s.sends[i] {
+			rt = si
+			si++
+		} else {
+			ri++
+			rt = ncas - ri
+		}
+		if runtime.VerifChanReady(ch, s.sends[i]) {
+			idx = append(idx, rt)
+		}
+	}
+	sort.Ints(idx)
+	return idx, true
+}
+
+// wouldBlock: the thread is parked before an inspectable select without default, no case is ready, and
+// no other thread parked before an inspectable select offers the complementary operation on one of its
+// channels (two such threads would rendezvous once one of them is let into its select): granting it would
+// only move it from "parked" to "blocked in select", so it is not offered as a choice.
+//
+//go:norace
+func wouldBlock(s *slot) bool {
+	if s.chans == nil || s.hasDef {
+		return false
+	}
+	if r, _ := readyCases(s); len(r) > 0 {
+		return false
+	}
+	n := rtLoad32(&nslots)
+	for i := uint32(0); i < n; i++ {
+		o := &slots[i]
+		if o == s || o.chans == nil || rtLoad32(&o.state) != stParked {
+			continue
+		}
+		for a, ca := range s.chans {
+			for b, cb := range o.chans {
+				if ca == cb && s.sends[a] != o.sends[b] {
+					return false
+				}
+			}
+		}
+	}
+	return true
+}
 
 // C records which select clause was entered.
 //
@@ -194,6 +278,10 @@ func isBanned(g uint64) bool {
 // Options of one scheduled execution.
 type Options struct {
 	MaxSteps int // horizon (default 400)
+	// DelayBound: every departure from the canonical choice (continue the running thread, else the
+	// lowest logical id) costs one deviation, also when the running thread has blocked or finished
+	// (delay-bounded scheduling). Without it only preemptions of a runnable thread cost (CHESS).
+	DelayBound bool
 	Names    []string
 	PointDoc func(id uint32) string
 }
@@ -244,9 +332,14 @@ type Sched struct {
 	byLid   []*thr
 	out     Outcome
 	started time.Time
+	allDone sync.WaitGroup
 }
 
-var selSeen = map[string]uint64{}
+// WaitDrivers blocks until every driver has returned (only meaningful after Release when the scheduled
+// phase ended early). It gives the caller a real happens-before edge from the drivers' last actions.
+func (s *Sched) WaitDrivers() { s.allDone.Wait() }
+
+var selOwner = map[string][]int8{}
 
 // timing statistics (diagnostics only)
 var StatRun, StatRelease, StatGrace time.Duration
@@ -274,6 +367,7 @@ func Run(x *vexp.X, opt Options, drivers ...func()) *Sched {
 	rtStore64(&schedGoid, rtGoid())
 	rtStore32(&active, 1)
 	started := make(chan uint64, len(drivers))
+	s.allDone.Add(len(drivers))
 	for i, d := range drivers {
 		i, d := i, d
 		go func() {
@@ -293,6 +387,7 @@ func Run(x *vexp.X, opt Options, drivers ...func()) *Sched {
 					}
 				}
 				rtStore32(&sl.state, stDone)
+				s.allDone.Done() // a real happens-before edge from each driver's end to WaitDrivers (race builds)
 			}()
 			d()
 		}()
@@ -464,7 +559,7 @@ func (s *Sched) loop() {
 		}
 		var enabled []*thr
 		for _, t := range s.order {
-			if !t.done && t.slot != nil && rtLoad32(&t.slot.state) == stParked {
+			if !t.done && t.slot != nil && rtLoad32(&t.slot.state) == stParked && !wouldBlock(t.slot) {
 				enabled = append(enabled, t)
 			}
 		}
@@ -474,7 +569,7 @@ func (s *Sched) loop() {
 			StatNoEnabledSleeps++
 			blocked = s.settle()
 			for _, t := range s.order {
-				if !t.done && t.slot != nil && rtLoad32(&t.slot.state) == stParked {
+				if !t.done && t.slot != nil && rtLoad32(&t.slot.state) == stParked && !wouldBlock(t.slot) {
 					enabled = append(enabled, t)
 				}
 			}
@@ -483,6 +578,11 @@ func (s *Sched) loop() {
 					return
 				}
 				s.out.Deadlock = true
+				for _, t := range s.order {
+					if !t.done && t.slot != nil && rtLoad32(&t.slot.state) == stParked {
+						s.out.Blocked = append(s.out.Blocked, fmt.Sprintf("%s waits at %s with no case ready", t.name, s.pointDoc(rtLoad32(&t.slot.point))))
+					}
+				}
 				for _, t := range blocked {
 					pt := uint32(0)
 					if t.slot != nil {
@@ -505,7 +605,7 @@ func (s *Sched) loop() {
 			return enabled[i].lid < enabled[j].lid
 		})
 		var c int
-		if len(enabled) > 0 && enabled[0] == s.last {
+		if (len(enabled) > 0 && enabled[0] == s.last) || s.opt.DelayBound {
 			c = s.x.ChooseDev(len(enabled)) // switching away from a runnable thread is a preemption
 			if c != 0 {
 				s.out.Preempt++
@@ -517,7 +617,19 @@ func (s *Sched) loop() {
 		bias := -1
 		nc := int(rtLoad32(&t.slot.ncases))
 		var key string
-		if nc > 1 {
+		if ready, ok := readyCases(t.slot); ok {
+			// inspectable select: branch over the ready cases only (no duplicates to prune)
+			nc = 0
+			if len(ready) > 1 {
+				if s.opt.DelayBound {
+					bias = ready[s.x.ChooseDev(len(ready))] // a non-default select alternative is a deviation, too
+				} else {
+					bias = ready[s.x.Choose(len(ready))]
+				}
+			} else if len(ready) == 1 {
+				bias = ready[0]
+			}
+		} else if nc > 1 {
 			key = fmt.Sprint(s.x.Choices)
 			bias = s.x.Choose(nc)
 		}
@@ -542,18 +654,28 @@ func (s *Sched) loop() {
 			s.x.Logf("step %d: %s runs from %s%s", s.out.Steps, t.name, s.pointDoc(pt), biasDoc(bias, cs))
 		}
 		if nc > 1 {
-			// the same clause under another bias is the same execution: prune the duplicate
-			bit := uint64(1) << uint(cs+2)
-			if len(selSeen) > 200000 {
-				selSeen = map[string]uint64{}
+			// the same clause under another (smaller) bias is the same execution: prune the duplicate.
+			// The owner of a clause is the smallest bias that produced it; executions of the owner itself
+			// (deeper alternatives below it) must of course not be pruned.
+			if len(selOwner) > 200000 {
+				selOwner = map[string][]int8{}
 			}
-			if bias == 0 {
-				selSeen[key] = bit
-			} else if selSeen[key]&bit != 0 {
-				s.out.Pruned = true
-				return
-			} else {
-				selSeen[key] |= bit
+			ow := selOwner[key]
+			if ow == nil {
+				ow = make([]int8, nc+3)
+				for i := range ow {
+					ow[i] = -1
+				}
+				selOwner[key] = ow
+			}
+			ci := cs + 2
+			if ci >= 0 && ci < len(ow) {
+				if ow[ci] < 0 || int(ow[ci]) > bias {
+					ow[ci] = int8(bias)
+				} else if int(ow[ci]) < bias {
+					s.out.Pruned = true
+					return
+				}
 			}
 		}
 	}
